@@ -431,6 +431,14 @@ func VH_C02_prog() {
 		vAssert(isInt, "integer-result-prescribed")
 		vAssert(int64(got) == want, "value-as-prescribed")
 	}
+	// an expression evaluated on demand afterwards (also after a failed run)
+	vm.Attrs.Store("qq9", NewIntVal(IntType(p)))
+	v, err := vm.RunExpr("qq9 - 1", false)
+	vAssert(err == nil, "on-demand-expression-after-the-program:no-error-prescribed")
+	if err == nil && v != nil {
+		got, isInt := v.ReadInt()
+		vAssert(isInt && int64(got) == p-1, "on-demand-expression-after-the-program:value-as-prescribed")
+	}
 	vReach("ran")
 }
 
